@@ -335,6 +335,19 @@ Proof.
   absmod. unabs. intro Hy2. rewrite Hy2. split; ring.
 Qed.
 
+(* PointJacobi.__eq__ (hand model pj_eqb) decides jac_eq *)
+Lemma pj_eqb_spec P Q : pj_eqb p P Q = true <-> jac_eq p P Q.
+Proof.
+  destruct P as [[X1 Y1] Z1], Q as [[X2 Y2] Z2]. unfold pj_eqb, jac_eq. cbv zeta.
+  rewrite andb_true_iff, !modp_eqb_0.
+  assert (E1 : X1 * ((Z2 * Z2) mod p) - X2 * ((Z1 * Z1) mod p) == X1 * (Z2 * Z2) - X2 * (Z1 * Z1)).
+  { absmod. unabs. ring. }
+  assert (E2 : Y1 * ((Z2 * Z2) mod p) * Z2 - Y2 * ((Z1 * Z1) mod p) * Z1 ==
+               Y1 * (Z2 * Z2) * Z2 - Y2 * (Z1 * Z1) * Z1).
+  { absmod. unabs. ring. }
+  rewrite E1, E2. rewrite <- !eqm_sub_0. reflexivity.
+Qed.
+
 (* ------------------------------------------------------------------ *)
 (* _add: which formula the dispatch selects *)
 
